@@ -62,8 +62,12 @@ A_TRYP_MW = ('trypsin', 'trypsin_exception', 2, 1200.5, 7, 25)
 # an EXPLICIT exception with another enzyme is its own parameter set (lysc must not cut the K of
 # CKD / DKD / CKH / CKY; gen_protein plants those contexts, so the pool differs from lysc alone)
 A_LYSC_EXC = ('lysc', 'trypsin_exception', 2, 500.0, 7, 25)
+# zero-valued parameters are values, not "unset" (miscleavage 0 vs the constructor default 2,
+# min_mw 0 vs 500)
+A_MISC0 = ('trypsin', 'auto', 0, 500.0, 7, 25)
+A_MW0 = ('trypsin', 'auto', 2, 0.0, 7, 25)
 ALL_PARAMS = [P_TRYP, P_LYSC, P_MISC, A_TRYP_EXPL, A_TRYP_NONE, A_LYSC_NONE, A_TRYP_INT,
-              A_TRYP_MW, A_LYSC_EXC]
+              A_TRYP_MW, A_LYSC_EXC, A_MISC0, A_MW0]
 # graph options of the calling commands (callVariant --max-variants-per-node …): not part of
 # the key a pool is registered under; a load that carries non-default ones must find the pool
 GRAPH_OPTS = [dict(max_variants_per_node=(5,), additional_variants_per_misc=(1,)),
@@ -195,6 +199,16 @@ def write_reference(root: Path, rid: int, rng) -> dict:
     frame_b = (3 - n_cds_a % 3) % 3
     rec('CDS', g2_start + len(u3b) + 3, exb_end, '-', str(frame_b),
         attrs(g2, t2, q2, 'exon_number 2; '))
+    if rid % 2 == 1:
+        # an assembled (StringTie-style) isoform appended to the reference annotation: transcript and
+        # exon records with their own gene_id but NO gene record (the annotation loaded from an
+        # index must still know it)
+        g3, t3 = f'MSTRG.{rid}', f'MSTRG.{rid}.1'
+        at3 = f'gene_id "{g3}"; transcript_id "{t3}"; '
+        n_a, n_b = g2_end + 6, g2_end + 14
+        L.append(f'chr1\tStringTie\ttranscript\t{n_a}\t{n_b + 8}\t.\t+\t.\t{at3}')
+        L.append(f'chr1\tStringTie\texon\t{n_a}\t{n_a + 5}\t.\t+\t.\t{at3}exon_number "1";')
+        L.append(f'chr1\tStringTie\texon\t{n_b}\t{n_b + 8}\t.\t+\t.\t{at3}exon_number "2";')
     with open(d / 'annotation.gtf', 'w') as fh:
         fh.write('\n'.join(L) + '\n')
     with open(d / 'proteome.fasta', 'w') as fh:
@@ -263,8 +277,18 @@ def init_world(refs):
         d = Path(r['dir'])
         proteome = aa.AminoAcidSeqDict()
         proteome.dump_fasta(d / 'proteome.fasta', source=None)
-        anno = gtf.GenomicAnnotation()
-        anno.dump_gtf(d / 'annotation.gtf', source=None)
+        if rid % 2 == 1:
+            # the in-memory parser rejects a transcript whose gene has no record; the commands read
+            # GTFs through the on-disk annotation (a private copy: the index files it writes next
+            # to the GTF must not become part of the reference)
+            priv = d / 'direct'
+            priv.mkdir(exist_ok=True)
+            shutil.copy(d / 'annotation.gtf', priv / 'annotation.gtf')
+            anno = gtf.GenomicAnnotationOnDisk()
+            anno.generate_index(priv / 'annotation.gtf', source=None)
+        else:
+            anno = gtf.GenomicAnnotation()
+            anno.dump_gtf(d / 'annotation.gtf', source=None)
         anno.check_protein_coding(proteome, False)
         genome = dna.DNASeqDict()
         genome.dump_fasta(d / 'genome.fasta')
@@ -388,17 +412,27 @@ def observe_dir(d: Path) -> str:
         return 'none # '
     mf = d / 'metadata.json'
     if mf.exists():
-        data = json.load(open(mf))
-        v = data['version']
-        ents = []
-        for it in data['canonical_pools']:
-            c = it['cleavage_params']
-            p = (c['enzyme'], c['exception'], c['miscleavage'], c['min_mw'], c['min_length'],
-                 c['max_length'])
-            ents.append(f"{it['filename']},{it['index']},{enc_params(p)}")
-        src = '-' if data['source'] is None else 's'
-        meta = (f"{v['python'] or ''}|{v['biopython'] or ''}|{v['mopepgen'] or ''}|{src}|"
-                + ';'.join(ents))
+        # metadata.json is output of the code under test: a record that lacks a key, or is not
+        # JSON at all, is reported in the line (the model then disagrees), never a harness crash
+        try:
+            data = json.load(open(mf))
+            v = data['version']
+            ents = []
+            for it in data['canonical_pools']:
+                c = it['cleavage_params']
+                missing = [k for k in ('enzyme', 'exception', 'miscleavage', 'min_mw', 'min_length',
+                                       'max_length') if k not in c]
+                if missing:
+                    ents.append(f"{it.get('filename')},{it.get('index')},MISSING-KEYS:{'+'.join(missing)}")
+                    continue
+                p = (c['enzyme'], c['exception'], c['miscleavage'], c['min_mw'], c['min_length'],
+                     c['max_length'])
+                ents.append(f"{it['filename']},{it['index']},{enc_params(p)}")
+            src = '-' if data['source'] is None else 's'
+            meta = (f"{v['python'] or ''}|{v['biopython'] or ''}|{v['mopepgen'] or ''}|{src}|"
+                    + ';'.join(ents))
+        except Exception as e:      # noqa: BLE001
+            meta = f'unreadable-metadata:{type(e).__name__}'
     else:
         meta = 'none'
     items = []
@@ -767,6 +801,10 @@ def run(ctx: common.Ctx):
                             first=gens([P_LYSC, A_LYSC_EXC], forces=(False,)))
         tasks += tree_tasks(refs, 'alias', alpha, ctx.n(3, 4), tmproot,
                             first=gens([P_TRYP, A_TRYP_EXPL, A_LYSC_NONE], forces=(False,)))
+        # zero-valued parameters next to the defaults they must not be confused with
+        zs = [P_TRYP, A_MISC0, A_MW0]
+        tasks += tree_tasks(refs, 'alias', upds(zs, (False,)) + loads(zs), ctx.n(3, 4), tmproot,
+                            first=gens([A_MISC0, A_MW0, P_TRYP], forces=(False,)))
         # symlink
         alpha = (gens([P_TRYP], syms=(False, True)) + upds([P_TRYP], (True,))
                  + upds([P_LYSC], (False,)) + loads([P_TRYP, P_LYSC]))
